@@ -17,6 +17,7 @@ Top-level clauses (taken from the property statements):
 """
 MODULE = "blackbird_python/blackbird/listener.py"
 GLOBALS = ["_VAR", "_PARAMS"]
+GLOBAL_TYPES = {"_VAR": "dict", "_PARAMS": "list"}      # type invariants of the module tables (assumed at entry, kept by every summary)
 
 # module-level constant tables, compared with the repository's as closed obligations
 CONSTS = {
